@@ -1,5 +1,5 @@
 From Coq Require Import ZArith List.
-From PV Require Import Base.U64 C12.C12_Model C12.C12_Mem C12.C12_MemC C12.C12_Iov C12.C12_Deser C12.C12_Walk C12.C12_Proofs.
+From PV Require Import Base.U64 C12.C12_Model C12.C12_Mem C12.C12_MemC C12.C12_Iov C12.C12_Deser C12.C12_Walk C12.C12_Flat C12.C12_Proofs.
 Theorem deser_in_bounds_no_trap : forall hstep sh m v,
   shape_wf sh -> inv m v ->
   exists t st, deserialize hstep cfg_final sh m v = Ok (t, st) /\ inv (d_mem st) (d_iov st) /\
@@ -14,6 +14,13 @@ Theorem deser_in_bounds_fields_partial : forall hstep sh m v,
                  exists its, w_fields cfg_final (sh_fields sh) (d_mem st) t = Ok its).
 Proof. exact deserialize_fields_in_bounds_partial. Qed.
 Print Assumptions deser_in_bounds_fields_partial.
+Theorem ser_roundtrip_front_copy_refines_flat_partial : forall m,
+  Forall (fun L => (L <= STRIDE)%Z) (lens m) ->
+  forall el bytes bs d el', Forall (el_ok (lens m)) el -> flat m el = Ok bs -> (0 < bytes <= sum_el el)%Z ->
+  vef_copy m el bytes = Ok (d, el') ->
+  d = firstn (Z.to_nat bytes) bs /\ flat m el' = Ok (skipn (Z.to_nat bytes) bs).
+Proof. exact vef_copy_flat. Qed.
+Print Assumptions ser_roundtrip_front_copy_refines_flat_partial.
 Theorem sorted_map_lookup_in_bounds : forall m a k ip inn bp bn,
   mem_bytes m -> mem_wf m ->
   validb (lens m) a 32 = true ->
